@@ -1064,13 +1064,17 @@ def main(tier, t0):
         rule=('fault = one rejected call of the menu injected into one explored state (every '
               'state of the BFS of valid histories, dd.bdd and dd.autoref, reordering off and on, '
               'with the trigger forced at positions 1, 2 inside the failing call); plus every '
-              'delete / duplicate / replace edit at every token position of 10 valid formulas. '
+              'delete / duplicate / replace edit at every token position of 10 valid formulas; '
+              'plus the interruption sweep: 29 valid calls cut short by RecursionError at EVERY '
+              'depth at which they can be cut (room for d = 2, 3, ... more frames until the call '
+              'succeeds), 2 seed states x reordering off / on. '
               'distinct_nontrivial counts DISTINCT fault kinds that really raised + distinct '
               'token edits that raised; evaluations counts injections'),
         exhaustive=not rep.caps,
         states=total['states'], transitions=total['transitions'],
         traces_validated_against_impl=total['validated'],
         faults_raised=raised,
+        interrupted_calls=rep.counts.get('interrupt_points', 0),
         continuations=rep.counts.get('continuations', 0),
         fault_kinds=sorted(rep.sets.get('fault_kinds', ())),
         exception_classes=sorted(rep.sets.get('exception_classes', ())),
